@@ -217,7 +217,7 @@ def boundary(fields):
     lentil.field.extent : Compute the extent of a Field
 
     """
-    rmin, rmax, cmin, cmax = sys.maxsize, 0, sys.maxsize, 0
+    rmin, rmax, cmin, cmax = sys.maxsize, -sys.maxsize, sys.maxsize, -sys.maxsize
 
     for field in fields:
         frmin, frmax, fcmin, fcmax = field.extent
